@@ -317,6 +317,17 @@ class StmtGen:
         if self.depth > 0 and self.flag("setop", 0.12):
             other = StmtGen(self.draw, "inherit", self.mk, self.value_kinds, 0, aliases=False, features=self.features).select(ncols=n, alias_terms=False)
             steps.append([self.d(st.sampled_from(["union", "union_all", "intersect", "except_of"])), [["q", other]]])
+            # clauses of the set operation itself
+            if tk and self.flag("setop_tail", 0.5):
+                aliased = [t for t in sel if t[0] == "as"]
+                if aliased and self.d(st.booleans()):
+                    steps.append(["orderby", [self.d(st.sampled_from(aliased))]])
+                if self.d(st.booleans()):
+                    steps.append(["limit", [["raw", 900000 + self.mk.next()]]])
+                    self.mk.issued.append(("int", steps[-1][1][0]))
+                if self.d(st.booleans()):
+                    steps.append(["offset", [["raw", 900000 + self.mk.next()]]])
+                    self.mk.issued.append(("int", steps[-1][1][0]))
         return {"cls": self.cls, "sources": {}, "steps": steps}
 
     def insert(self):
